@@ -30,6 +30,13 @@ Engine B, two parts:
          mapping access to raw values, per-paragraph dumps in five forms, dump to text files, strict=False, positional
          arguments, dump before any read, two documents alive, the same line list parsed twice.  Each must give the reference
          description and the very text the ordinary build dumps.
+  ladder beyond the small scope: COUNT ladders - one otherwise simple input for every n in 1..40 and 63 64 65 100 127 128 129 255 256
+         257 999 1000 1001 1025 2500 2501 5000 - over lines per text and EMPTY lines per text (codec and licence of a Files paragraph /
+         License paragraph / header; runs, scattered, leading), lines per Copyright value, patterns per Files field, contacts,
+         paragraphs per document (to 1025 at quick); SIZE ladders - one value of exactly L characters, L around 1000, 4096, 16 Ki,
+         64 Ki, 128 Ki, 256 Ki, for a text line, a whole text, a Copyright line, a pattern, a Files list, a synopsis, the Source,
+         with blanks / multi-byte characters / 'word:' / newlines exactly at the block boundaries.  Inputs are generated from the
+         compact case; signatures start with the family ("ladder/empty-lines...", "size/pattern/...").
 """
 import io
 import itertools
@@ -49,7 +56,8 @@ RULE = ("Engine B: states = prefixes of line lists / paragraph sequences generat
         "longer than 72 characters, a text line of >= 200 characters, a text of >= 30 lines or >= 5 contacts; input kinds: "
         "the way the dumped text is handed back to Copyright(...) is one more choice below the document: one state / "
         "transition / trace per (document, kind), non-trivial by the document's own rule; routes: likewise one state / "
-        "transition / trace per (document, route)")
+        "transition / trace per (document, route); ladders: one state / transition / trace / evaluation per generated input "
+        "(family, n or L, arrangement, position, input kind), non-trivial when n >= 4 (beyond the small scope)")
 BUDGET = {"quick": 240, "thorough": 3000}
 
 FORMAT = "https://www.debian.org/doc/packaging-manuals/copyright-format/1.0/"
@@ -88,6 +96,7 @@ def bounds(tier):
                                       "module for what each route does",
                            "paragraph_dumps": PARA_DUMPS},
             "codec_none": CODEC_NONE_CALLS,
+            "beyond_the_small_scope": ladder_bounds(tier),
             "doc_headers": ("24 header variants (Upstream-Name, Source, Upstream-Contact 0/1/2 entries, License) x "
                             "sequences of 0..1 paragraphs; minimal and full header x sequences of 2..3 paragraphs"
                             if tier == "quick" else "24 header variants x every sequence")}
@@ -142,6 +151,12 @@ def assumptions():
             "routes: strict=False must read a well-formed document exactly as strict=True and log no complaint; the per-"
             "paragraph dump() of RestrictedWrapper ('the dump method from Deb822 is directly proxied') joined by empty lines "
             "is the document's dump, as str, to a text stream with text_mode=True, or as UTF-8 bytes",
+            "ladders: the statement bounds neither the number of lines, empty lines, patterns, contacts or paragraphs nor the size "
+            "of a value; ladder inputs stay inside the domains above (texts end in a non-empty line, no white-space-only lines, "
+            "patterns without white space, synopsis / first lines without surrounding blanks, Copyright in continuation form with ' .' "
+            "for an empty line).  'Block boundaries' are positions inside the VALUE (multiples of 16384 / 65536 and its last "
+            "character), not offsets in the dumped file (the field name and the header shift them by a few dozen bytes).  Ladders are "
+            "bounded-exhaustive in n (every n listed), not in content: one to five arrangements per n",
             "routes left out: pickle (Deb822 objects hold weak references and cannot be pickled on the unchanged library); "
             "encoding= together with str input (str lines are re-decoded with that encoding on the unchanged library); "
             "multi-byte stream encodings with a byte-order mark for paragraph dumps (every field write would carry its own "
@@ -869,6 +884,307 @@ def run_codec_none_case(case):
     return [], "codec-none"
 
 
+
+# ------------------------------------------------------------------------------------------------ beyond the small scope
+# COUNT ladders (one otherwise simple input per count n, n = 1..40 and the block-size neighbours up to 5000) for every kind
+# of repeatable element the statement quantifies over, and SIZE ladders for the values whose size it leaves open.  A case
+# is a compact description ({"part": "ladder", "fam": ..., "n": ..., "arr": ..., "pos": ...}); the input is generated from
+# it (ladder_inner) and judged by the codec / document oracle above, the family in front of the signature.
+
+LADDER_NS = list(range(1, 41)) + [63, 64, 65, 100, 127, 128, 129, 255, 256, 257, 999, 1000, 1001, 1025, 2500, 2501, 5000]
+SIZE_LS = [997, 998, 999, 1000, 4095, 4096, 4097, 16383, 16384, 16385, 65535, 65536, 65537, 131071, 131072, 131073,
+           262143, 262144, 262145]
+SIZE_BLOCKS = (16384, 65536)
+LADDER_KINDS = ["", "StringIO"]              # how the dumped text of a count-ladder document is handed back to Copyright(...)
+SIZE_KINDS = ["", "StringIO", "bytes"]       # ... of a size-ladder document ('' = the list of lines with their newlines)
+
+# family -> (arrangements, positions, largest n in the quick tier)
+LADDER_FAMS = {
+    "ladder/codec-lines": (["plain", "mixed", "dots"], [None], 5000),
+    "ladder/codec-empty-lines": (["run", "scattered", "leading", "between-dots"], [None], 5000),
+    "ladder/licence-lines": (["plain", "mixed"], ["F", "L", "H"], 5000),
+    "ladder/licence-empty-lines": (["run", "scattered", "leading"], ["F", "L", "H"], 5000),
+    "ladder/copyright-lines": (["plain", "with-dot-lines"], ["F"], 5000),
+    "ladder/files-patterns": (["distinct", "same", "one-character", "wildcards"], ["F"], 5000),
+    "ladder/contacts": (["plain"], ["H"], 5000),
+    "ladder/paragraphs": (["files", "licences", "alternating", "licences-then-files", "files-then-licences"], [None], 1025),
+}
+LADDER_PARAGRAPHS_THOROUGH = [2500, 2501, 5000]
+SIZE_FAMS = {
+    "size/licence-line": (["filler", "words", "multibyte-at-boundaries", "word-colon-at-boundaries"], ["F", "L", "H"]),
+    "size/licence-text": (["newline-at-boundaries", "empty-line-at-boundaries", "lines-of-63"], ["F", "L"]),
+    "size/copyright-line": (["filler", "words", "multibyte-at-boundaries", "word-colon-at-boundaries"], ["first", "continuation"]),
+    "size/pattern": (["filler", "hyphens", "multibyte-at-boundaries"], ["only", "first", "last"]),
+    "size/files-list": (["patterns-of-7", "blank-at-boundaries"], ["F"]),
+    "size/synopsis": (["filler", "words", "multibyte-at-boundaries"], ["F", "L"]),
+    "size/source": (["filler", "words", "multibyte-at-boundaries"], ["H"]),
+}
+
+
+def ladder_bounds(tier):
+    return {"counts": "n = 1..40, 63, 64, 65, 100, 127, 128, 129, 255, 256, 257, 999, 1000, 1001, 1025, 2500, 2501, 5000 (every n, "
+                      "no sampling); paragraphs per document: up to 1025 at quick (a 5000-paragraph document takes ~2 s: the adding "
+                      "methods are linear), 2500 / 2501 / 5000 at thorough",
+            "count_families": {f: {"arrangements": v[0], "positions": v[1]} for f, v in sorted(LADDER_FAMS.items())},
+            "count_meaning": {"ladder/codec-lines": "n lines after the first through the codec at its three API levels (plain; every 7th "
+                                                    "empty / indented; dot-like lines '..' '.x' '. ' among them)",
+                              "ladder/codec-empty-lines": "n EMPTY lines in a text through the codec: one run in the middle, scattered "
+                                                          "one by one between plain lines, leading (directly after the first line), "
+                                                          "alternating with '..' lines",
+                              "ladder/licence-lines": "n text lines in the licence of a Files paragraph (F), a stand-alone License "
+                                                      "paragraph (L), the header (H)",
+                              "ladder/licence-empty-lines": "n empty lines in such a licence text",
+                              "ladder/copyright-lines": "n lines in the Copyright value of a Files paragraph (continuation form; every 5th "
+                                                        "' .')",
+                              "ladder/files-patterns": "n patterns in one Files field",
+                              "ladder/contacts": "n Upstream-Contact entries",
+                              "ladder/paragraphs": "n paragraphs after the header, all different (Files only, License only, alternating, "
+                                                   "all License paragraphs added first, all Files paragraphs added first)"},
+            "sizes": "L = %s characters" % (SIZE_LS,),
+            "size_families": {f: {"arrangements": v[0], "positions": v[1]} for f, v in sorted(SIZE_FAMS.items())},
+            "size_meaning": "one value of exactly L characters: a licence text line, a whole licence text (lines of 64 with the newline - or "
+                            "an empty line - exactly at every multiple of 16384 / 65536 and at L-1), a Copyright line (first / continuation), "
+                            "one Files pattern (alone, first, last in its list), a whole Files list, a synopsis, the Source value; filler, "
+                            "words separated by single blanks, a two-byte / three-byte character or a 'word:' exactly at, just before and just "
+                            "after every multiple of 16384 and 65536 inside the value and at its end",
+            "input_kinds": "every count-ladder document is re-parsed from %r, every size-ladder document from %r ('' = list of lines "
+                           "with newlines)" % (LADDER_KINDS, SIZE_KINDS),
+            "judged_by": "the codec oracle (ladder/codec-*) and the document oracle (build, read, dump, strict re-parse, read, second dump) "
+                         "of the small scope"}
+
+
+def _ns(fam, tier):
+    top = LADDER_FAMS[fam][2]
+    ns = [n for n in LADDER_NS if n <= top]
+    if tier == "thorough" and fam == "ladder/paragraphs":
+        ns += LADDER_PARAGRAPHS_THOROUGH
+    return ns
+
+
+def ladder_cases(fam, tier, seed):
+    a, e = letters(seed)
+    out = []
+    if fam in LADDER_FAMS:
+        arrs, poss, _top = LADDER_FAMS[fam]
+        for n in _ns(fam, tier):
+            for arr in arrs:
+                for pos in poss:
+                    for kind in ([""] if "codec" in fam else LADDER_KINDS):
+                        out.append({"part": "ladder", "fam": fam, "n": n, "arr": arr, "pos": pos, "kind": kind, "a": a, "e": e})
+    else:
+        arrs, poss = SIZE_FAMS[fam]
+        for n in SIZE_LS:
+            for arr in arrs:
+                for pos in poss:
+                    for kind in SIZE_KINDS:
+                        out.append({"part": "ladder", "fam": fam, "n": n, "arr": arr, "pos": pos, "kind": kind, "a": a, "e": e})
+    return out
+
+
+def _marks(L):
+    """the positions of interest inside a value of L characters: every multiple of a block size, and the end"""
+    m = set()
+    for b in SIZE_BLOCKS:
+        m.update(range(b, L, b))
+    m.add(L - 1)
+    return sorted(x for x in m if 2 <= x < L)
+
+
+def _sized(L, arr, a, e, blank_ok=True):
+    """a single-line value of exactly L characters (no leading / trailing blank)"""
+    fill = a if a not in "#-" else "x"
+    if arr == "filler":
+        s = fill * L
+    elif arr == "words":
+        s = ((fill * 4 + " ") * (L // 5 + 1))[:L - 1] + "z"
+    elif arr == "hyphens":
+        s = ((fill * 4 + "-") * (L // 5 + 1))[:L - 1] + "z"
+    else:
+        buf = [fill] * L
+        tok = e if arr == "multibyte-at-boundaries" else "word:"
+        for m in _marks(L):
+            for start in ((m - 1, m, m + 1) if len(tok) == 1 else (m - len(tok), m)):
+                if 1 <= start and start + len(tok) <= L - 1:
+                    buf[start:start + len(tok)] = list(tok)
+        if arr == "multibyte-at-boundaries":
+            buf[L - 1] = e
+        s = "".join(buf)
+    assert len(s) == L and s.strip() == s, (L, arr)
+    return s
+
+
+def _sized_text(L, arr, a):
+    """a licence text of exactly L characters made of short lines, a newline (or an empty line) exactly at the marks"""
+    fill = a if a not in "#-" else "x"
+    if arr == "lines-of-63":
+        s = ((fill * 62 + "\n") * (L // 63 + 1))[:L - 1] + "z"
+        return s.replace("\n" + "z", fill + "z") if s[-2] == "\n" else s
+    buf = list(((fill * 63 + "\n") * (L // 64 + 1))[:L])
+    buf[L - 1] = "z"
+    for m in _marks(L):
+        if m >= L - 1:
+            m = L - 2
+        for i in range(max(0, m - 3), min(L - 1, m + 4)):
+            if buf[i] == "\n":
+                buf[i] = fill
+        buf[m] = "\n"
+        if arr == "empty-line-at-boundaries" and m >= 2:
+            buf[m - 1] = "\n"
+    s = "".join(buf)
+    assert len(s) == L and s[-1] != "\n"
+    return s
+
+
+def _lines_for(fam_tail, n, arr, e):
+    """line lists for the codec / licence ladders; the first line is the synopsis"""
+    if fam_tail == "lines":
+        if arr == "plain":
+            return ["S"] + ["line %d" % i for i in range(n)]
+        if arr == "mixed":
+            return ["S"] + [("" if i % 7 == 3 else "  indented %d" % i if i % 7 == 5 else "line %d %s" % (i, e)) if i < n - 1 else "end"
+                            for i in range(n)]
+        return ["S"] + [("..", ".x", ". .", "l%d" % i)[i % 4] if i < n - 1 else "end" for i in range(n)]
+    if arr == "run":
+        return ["S", "first"] + [""] * n + ["last"]
+    if arr == "leading":
+        return ["S"] + [""] * n + ["last"]
+    if arr == "between-dots":
+        out = ["S"]
+        for i in range(n):
+            out += ["", ".."]
+        return out
+    out = ["S", "l"]
+    for i in range(n):
+        out += ["", "l%d" % i]
+    return out
+
+
+def ladder_inner(case):
+    """-> the codec / document case a ladder case stands for"""
+    dpool, headers = doc_pools(0)
+    minimal = headers[0]
+    before, after = dpool[0], dpool[31]
+    fam, n, arr, pos, a, e = case["fam"], case["n"], case["arr"], case["pos"], case["a"], case["e"]
+
+    def with_licence(lic):
+        if pos == "F":
+            return {"part": "doc", "header": minimal, "paras": [["F", ["*"], "2020 A", lic], after]}
+        if pos == "L":
+            return {"part": "doc", "header": minimal, "paras": [before, ["L", lic]]}
+        return {"part": "doc", "header": dict(minimal, license=lic), "paras": [before]}
+
+    if fam in ("ladder/codec-lines", "ladder/codec-empty-lines"):
+        return {"part": "codec", "lines": _lines_for(fam.split("-", 1)[1], n, arr, e)}
+    if fam in ("ladder/licence-lines", "ladder/licence-empty-lines"):
+        lines = _lines_for(fam.split("-", 1)[1], n, arr, e)
+        return with_licence([lines[0], "\n".join(lines[1:])])
+    if fam == "ladder/copyright-lines":
+        lines = ["%d Holder %d %s" % (1990 + i % 40, i, e) if (arr == "plain" or i % 5 != 3 or i == n - 1) else "." for i in range(n)]
+        return {"part": "doc", "header": minimal, "paras": [["F", ["*"], "\n ".join(lines), ["GPL-2+", ""]], after]}
+    if fam == "ladder/files-patterns":
+        if arr == "distinct":
+            files = ["d%d/*" % i for i in range(n)]
+        elif arr == "same":
+            files = ["src/*"] * n
+        elif arr == "one-character":
+            files = ["abcdefghijklmnopqrstuvwxyz0123456789"[i % 36] for i in range(n)]
+        else:
+            files = [("*", "?", "\\*", "a?b*", "*.c")[i % 5] for i in range(n)]
+        return {"part": "doc", "header": minimal, "paras": [before, ["F", files, "2020 A", ["GPL-2+", ""]], after]}
+    if fam == "ladder/contacts":
+        return {"part": "doc", "header": dict(minimal, contact=["C%d <c%d@example.org>" % (i, i) for i in range(n)]), "paras": [before]}
+    if fam == "ladder/paragraphs":
+        def fp(i):
+            return ["F", ["d%d/*" % i], "%d H%d" % (1990 + i % 40, i), ["L%d" % (i % 9), ""]]
+
+        def lp(i):
+            return ["L", ["L%d" % i, "text %d\n\nmore %s" % (i, e)]]
+        if arr == "files":
+            paras = [fp(i) for i in range(n)]
+        elif arr == "licences":
+            paras = [lp(i) for i in range(n)]
+        elif arr == "alternating":
+            paras = [fp(i) if i % 2 == 0 else lp(i) for i in range(n)]
+        elif arr == "licences-then-files":
+            paras = [lp(i) for i in range(n // 2)] + [fp(i) for i in range(n // 2, n)]
+        else:
+            paras = [fp(i) for i in range(n - n // 2)] + [lp(i) for i in range(n - n // 2, n)]
+        return {"part": "doc", "header": minimal, "paras": paras}
+    # sizes
+    if fam == "size/licence-line":
+        return with_licence(["X", "short\n" + _sized(n, arr, a, e) + "\n\nend"])
+    if fam == "size/licence-text":
+        return with_licence(["X", _sized_text(n, arr, a)])
+    if fam == "size/copyright-line":
+        v = _sized(n, arr, a, e)
+        cp = v if pos == "first" else "2020 A\n " + v + "\n 2021 B"
+        return {"part": "doc", "header": minimal, "paras": [["F", ["*"], cp, ["GPL-2+", ""]], after]}
+    if fam == "size/pattern":
+        v = _sized(n, arr, a, e)
+        files = [v] if pos == "only" else [v, "*", "b"] if pos == "first" else ["*", "b", v]
+        return {"part": "doc", "header": minimal, "paras": [["F", files, "2020 A", ["GPL-2+", ""]], after]}
+    if fam == "size/files-list":
+        if arr == "patterns-of-7":
+            joined = (("ab/cd/* ") * (n // 8 + 1))[:n - 1] + "z"
+            joined = joined.replace(" z", "zz")
+        else:
+            buf = ["q"] * n
+            for m in _marks(n):
+                if 1 <= m < n - 1 and buf[m - 1] != " ":
+                    buf[m] = " "
+            joined = "".join(buf)
+        assert len(joined) == n
+        return {"part": "doc", "header": minimal, "paras": [["F", joined.split(" "), "2020 A", ["GPL-2+", ""]], after]}
+    if fam == "size/synopsis":
+        return with_licence([_sized(n, arr, a, e), "text\n\nend"])
+    if fam == "size/source":
+        return {"part": "doc", "header": dict(minimal, source=_sized(n, arr, a, e)), "paras": [before]}
+    raise AssertionError(fam)
+
+
+def _with_kind(case, inner):
+    if inner["part"] == "doc" and case.get("kind"):
+        inner["kind"] = case["kind"]
+    return inner
+
+
+def _n_class(n):
+    return "n<=3" if n <= 3 else "n<=40" if n <= 40 else "n<=257" if n <= 257 else "n<=1025" if n <= 1025 else "n>=2500"
+
+
+def run_ladder_case(case):
+    inner = _with_kind(case, ladder_inner(case))
+    if inner["part"] == "codec":
+        bad, cls = run_codec_case(inner)
+        cls = cls.split("/")[0]
+    else:
+        bad, cls = run_doc_case(inner)
+        cls = "doc" if cls.startswith("doc:") else cls
+    pre = case["fam"] + "/"
+    return [(pre + b[0] if not b[0].startswith("codec/") or not pre.startswith("ladder/codec") else pre + b[0][6:],) + tuple(b[1:])
+            for b in bad], cls
+
+
+def _ladder_unit(part, u, tier, seed):
+    cases = ladder_cases(u["fam"], tier, seed)
+    size = u["fam"].startswith("size/")
+    for case in cases:
+        bad, cls = run_ladder_case(case)
+        part.states += 1
+        part.transitions += 1
+        part.traces += 1
+        part.evaluations += 1
+        part.outcomes["%s %s %s: %s" % (u["fam"], case["arr"], "L" if size else _n_class(case["n"]), cls)] += 1
+        part.extra[("values of a size ladder" if size else "inputs of a count ladder")] += 1
+        if case["n"] >= 4:
+            part.nontrivial += 1
+        for sig, e, o in bad:
+            part.violation(sig, case, e, o, rank=case["n"])
+        part.max_depth = max(part.max_depth, case["n"] if not size else 3)
+    part.sample(cases[len(cases) // 3])
+    return part
+
+
 # ------------------------------------------------------------------------------------------------ units
 
 def units(tier, seed):
@@ -905,10 +1221,14 @@ def units(tier, seed):
     out += [{"part": "doc-routes", "group": ["pair", i]} for i in range(len(dpool))]
     out += [{"part": "doc-routes", "group": g} for g in ROUTE_GROUPS]
     out.append({"part": "doc-order"})
+    out += [{"part": "ladder", "fam": f} for f in sorted(LADDER_FAMS)]
+    out += [{"part": "ladder", "fam": f} for f in sorted(SIZE_FAMS)]
     return out
 
 
 def unit_cost(u, tier):
+    if u["part"] == "ladder":
+        return 3000 * 600 if u["fam"] == "ladder/paragraphs" else 1500 * 600
     if u["part"] == "doc-long":
         return 400 * 600
     if u["part"] == "doc-kinds":
@@ -1505,12 +1825,16 @@ def run_unit(u, tier, seed):
         return _doc_routes_unit(part, u, seed)
     if u["part"] == "doc-order":
         return _doc_order_unit(part, u, seed)
+    if u["part"] == "ladder":
+        return _ladder_unit(part, u, tier, seed)
     return _doc_unit(part, u)
 
 
 # ------------------------------------------------------------------------------------------------ replay
 
 def replay(case):
+    if case.get("part") == "ladder":
+        return run_ladder_case(case)[0]
     if case.get("part") == "codec":
         return run_codec_case(case)[0]
     if case.get("part") == "codec-none":
